@@ -47,13 +47,26 @@ pub struct Tok {
     pub name_end: usize,
 }
 
-#[derive(Clone, Debug, Default)]
+#[derive(Clone, Debug)]
 pub struct Doc {
+    pub enc: &'static encoding_rs::Encoding,
     pub bytes: Vec<u8>,
     pub toks: Vec<Tok>,
     pub has_island: bool,
     pub has_rawtext: bool,
     pub has_misnest: bool,
+}
+
+impl Default for Doc {
+    fn default() -> Self {
+        Doc { enc: encoding_rs::UTF_8, bytes: vec![], toks: vec![], has_island: false, has_rawtext: false, has_misnest: false }
+    }
+}
+
+impl Doc {
+    pub fn decode(&self, r: (usize, usize)) -> String {
+        self.enc.decode_without_bom_handling(&self.bytes[r.0..r.1]).0.into_owned()
+    }
 }
 
 #[derive(Clone, Debug)]
@@ -75,11 +88,14 @@ pub struct DocOpts {
     pub small_vocab: bool,
     /// allow '<' (followed by a non-tag character) in data text
     pub lt_in_text: bool,
+    /// document encoding: non-ASCII characters of the vocabulary are mapped to characters of
+    /// this encoding whose encoded bytes are all >= 0x80
+    pub enc: &'static encoding_rs::Encoding,
 }
 
 impl Default for DocOpts {
     fn default() -> Self {
-        DocOpts { max_items: 14, max_depth: 5, islands: true, rawtext: true, misnest: true, comments: true, doctype: true, multibyte: true, odd_attrs: true, max_attrs: 4, small_vocab: true, lt_in_text: false }
+        DocOpts { max_items: 14, max_depth: 5, islands: true, rawtext: true, misnest: true, comments: true, doctype: true, multibyte: true, odd_attrs: true, max_attrs: 4, small_vocab: true, lt_in_text: false, enc: encoding_rs::UTF_8 }
     }
 }
 
@@ -109,7 +125,21 @@ pub struct Gen<'a, 't> {
 
 impl<'a, 't> Gen<'a, 't> {
     fn push(&mut self, s: &str) {
-        self.d.bytes.extend_from_slice(s.as_bytes());
+        if self.o.enc == encoding_rs::UTF_8 {
+            self.d.bytes.extend_from_slice(s.as_bytes());
+        } else {
+            let (b, _, unmappable) = self.o.enc.encode(s);
+            debug_assert!(!unmappable, "generator produced an unmappable char: {s:?}");
+            self.d.bytes.extend_from_slice(&b);
+        }
+    }
+    /// map the vocabulary's non-ASCII characters into the document encoding's safe pool
+    fn m(&self, s: String) -> String {
+        if self.o.enc == encoding_rs::UTF_8 || s.is_ascii() {
+            return s;
+        }
+        let p = crate::gens::enc::pool(crate::gens::enc::index_of(self.o.enc));
+        s.chars().map(|c| if c.is_ascii() { c } else if p.safe.is_empty() { '?' } else { p.safe[(c as usize * 7 + 3) % p.safe.len()] }).collect()
     }
     fn pos(&self) -> usize {
         self.d.bytes.len()
@@ -128,7 +158,7 @@ impl<'a, 't> Gen<'a, 't> {
                 s.push_str(*self.t.pick(WORDS));
             }
         }
-        s
+        self.m(s)
     }
 
     fn text(&mut self, ns: Ns) {
@@ -225,7 +255,7 @@ impl<'a, 't> Gen<'a, 't> {
                 s.push_str(*self.t.pick(&["=", "= "]));
             }
         }
-        s
+        self.m(s)
     }
 
     /// Emit a start tag; returns whether it was written with self-closing syntax.
@@ -299,7 +329,7 @@ impl<'a, 't> Gen<'a, 't> {
             // keep clear of the script escape states (C03 covers them differentially)
             s = s.replace("<!--", "<! --");
         }
-        s
+        self.m(s)
     }
 
     fn raw_elem(&mut self, ns: Ns, last: bool, exclude_name: Option<&str>) {
@@ -482,7 +512,23 @@ impl<'a, 't> Gen<'a, 't> {
 }
 
 pub fn doc(t: &mut Tape<'_>, o: &DocOpts) -> Doc {
-    let mut g = Gen { t, o, d: Doc::default(), budget: o.max_items * 3 };
+    let mut g = Gen { t, o, d: Doc { enc: o.enc, ..Doc::default() }, budget: o.max_items * 3 };
     g.html_items(0, false, true, None);
     g.d
+}
+
+/// Hand-built documents for fixed regression cases: `parts` = (kind, raw bytes, name/text, ns, text type).
+pub fn build(parts: &[(TK, &str, &str, Ns, &'static str)]) -> Doc {
+    let mut d = Doc::default();
+    for (kind, raw, name, ns, tt) in parts {
+        let start = d.bytes.len();
+        d.bytes.extend_from_slice(raw.as_bytes());
+        let name_end = match kind {
+            TK::Start => start + 1 + name.len(),
+            TK::End => start + 2 + name.len(),
+            _ => 0,
+        };
+        d.toks.push(Tok { kind: *kind, start, end: d.bytes.len(), name: name.to_string(), ns: *ns, text_type: tt, name_end });
+    }
+    d
 }
